@@ -1,4 +1,4 @@
-from ast import Attribute, Subscript, Load, NodeVisitor
+from ast import Attribute, Subscript, Load, NodeVisitor, Name as AstName
 
 from .compat import PY2
 from .scope import FuncScope, Flow, SourceScope, ClassScope
@@ -100,7 +100,65 @@ class extract_visitor(NodeVisitor):
         elif node.value:
             name.flow = self.flow  # type: ignore[attr-defined]
             self.flow.add_name(AssignedName(name.id, eend, np(name), node.value))
+        else:
+            # `x: T` binds nothing but makes x a variable of this scope
+            self.flow.mark_local(name.id)
         self.generic_visit(node)
+
+    def visit_AugAssign(self, node):
+        # type: (ast.AugAssign) -> None
+        if isinstance(node.target, AstName):
+            # `x += 1` makes x a variable of this scope (the compiler's rule)
+            self.flow.mark_local(node.target.id)
+        self.generic_visit(node)
+
+    def visit_Delete(self, node):
+        # type: (ast.Delete) -> None
+        for target, _idx in [it for t in node.targets for it in get_indexes_for_target(t, [], [])]:
+            if isinstance(target, AstName):
+                self.flow.mark_local(target.id)
+        self.generic_visit(node)
+
+    def _bind_capture(self, node, ident, declared_at):
+        # type: (ast.AST, str, tuple[int, int]) -> None
+        # a capture of a match pattern is bound when the pattern has matched
+        if getattr(self, '_captures_off', False):
+            return
+        end = node.end_lineno, node.end_col_offset  # type: ignore[attr-defined]
+        self.flow.add_name(AssignedName(ident, end, declared_at, None))  # type: ignore[arg-type]
+
+    def visit_MatchOr(self, node):
+        # type: (ast.AST) -> None
+        # every alternative binds the same names: one binding each is enough
+        self.visit(node.patterns[0])  # type: ignore[attr-defined]
+        outer, self._captures_off = getattr(self, '_captures_off', False), True
+        try:
+            for pattern in node.patterns[1:]:  # type: ignore[attr-defined]
+                self.visit(pattern)
+        finally:
+            self._captures_off = outer
+
+    def visit_MatchAs(self, node):
+        # type: (ast.AST) -> None
+        self.generic_visit(node)
+        if node.name:  # type: ignore[attr-defined]
+            # `case x` is the name itself, `case <pattern> as x` ends with it
+            self._bind_capture(node, node.name, (node.end_lineno, node.end_col_offset - len(node.name)))  # type: ignore[attr-defined]
+
+    def visit_MatchStar(self, node):
+        # type: (ast.AST) -> None
+        if node.name:  # type: ignore[attr-defined]
+            self._bind_capture(node, node.name, (node.end_lineno, node.end_col_offset - len(node.name)))  # type: ignore[attr-defined]
+
+    def visit_MatchMapping(self, node):
+        # type: (ast.AST) -> None
+        self.generic_visit(node)
+        if node.rest:  # type: ignore[attr-defined]
+            # `**rest` is what follows the last key: pattern pair
+            last = node.patterns[-1] if node.patterns else None  # type: ignore[attr-defined]
+            start = (last.end_lineno, last.end_col_offset) if last else np(node)
+            declared_at = self.top.find_id_loc(node.rest, start, delimeters=False)  # type: ignore[attr-defined]
+            self._bind_capture(node, node.rest, declared_at)  # type: ignore[attr-defined]
 
     def visit_If(self, node):
         # type: (ast.If) -> None
@@ -225,6 +283,7 @@ class extract_visitor(NodeVisitor):
             self.flow.scope.flow = self.flow
 
     visit_Try = visit_TryExcept
+    visit_TryStar = visit_TryExcept
 
     def visit_FunctionDef(self, node):
         # type: (ast.FunctionDef) -> None
